@@ -10,13 +10,19 @@
 (*                                                                         *)
 (* The variables of the design model TypeSystem.tla follow the log: every  *)
 (* event fires the model action of the same name (Deviations = the known   *)
-(* deviations of the pinned code), so the real trace is checked to be a    *)
+(* deviations of the code as it is), so the real trace is checked to be a  *)
 (* behaviour of the cache machine (clauses Drift_*, no verdict).  The      *)
 (* verdict clauses are evaluated on the recorded answers only:             *)
 (*   CachedEqualsRecomputed_*  : cached answer at the end = recomputation. *)
-(* A stale answer is attributed to a known deviation when the              *)
-(* corresponding update happened after one of the cache entries it is read *)
-(* from was filled (`upd`, Deps), everything else is _Other.               *)
+(* The one known deviation left (after bee086b, 42ab0b5) is                *)
+(* NoProviderClearOnAddEdge: add_subclass_edge clears the caches of the    *)
+(* TypeSystem, the provider caches survive.  A stale answer is attributed  *)
+(* to it (clause ..._KnownNoClearOnAddEdge, the name is the signature of   *)
+(* known_findings.d) when it is read from a cache entry that was in the    *)
+(* cache while an edge was added (`upd`, Deps) -- in the cache machine     *)
+(* only provider entries can be --, everything else is _Other: a stale     *)
+(* TypeSystem answer and an offered set that misses an added generator     *)
+(* alarm.                                                                  *)
 (* One phase per clause (TLC reports one violated invariant per state).    *)
 (***************************************************************************)
 EXTENDS TypeSystem, TLCExt, Json, IOUtils
@@ -31,7 +37,6 @@ tvars == <<tid, l, ph, prov, upd, hier, extra, h, rel, gens, ret, memo, steps>>
 \* clauses evaluated after an event of the given kind, one phase each
 PhasesOf(kind) ==
   CASE kind = "final" -> <<"CachedEqualsRecomputed_KnownNoClearOnAddEdge",
-                           "CachedEqualsRecomputed_KnownNoClearOnAddGenerator",
                            "CachedEqualsRecomputed_Other", "Drift_Final">>
     [] kind = "query" -> <<"Drift_Answer">>
     [] kind = "update_ret" -> <<"Drift_ReturnType">>
@@ -45,11 +50,12 @@ ObsAns(a) == Ans(a.b, a.n, ToSetOf(a.s))
 St == [h |-> h, reg |-> Reg, prov |-> prov]
 AllRoots == [i \in 1..NUser |-> [ub |-> {}, bb |-> "object"]]
 H0 == HOf(AllRoots, {})       \* constant: computed once for all traces
-\* upd follows the memo: new entries start empty, surviving entries get the update marked
-\* (a new entry inherits the history of the older entries its value was read from)
+\* upd follows the memo: new entries start empty, surviving entries get the update marked.
+\* (While add_subclass_edge left the TypeSystem caches alone a new entry could be computed from
+\* stale nested entries and inherited their marks; now every entry that depends on the graph
+\* and survives an edge is a provider entry, and no cached call reads its answer from one.)
 Follow(m2, kinds) ==
-  [k \in DOMAIN m2 |-> IF k \in DOMAIN upd THEN upd[k] \cup kinds
-                        ELSE UNION {upd[d] : d \in Deps(St, memo, k)}]
+  [k \in DOMAIN m2 |-> IF k \in DOMAIN upd THEN upd[k] \cup kinds ELSE {}]
 
 TInit == /\ tid \in 1..Len(Traces) /\ l = 0 /\ ph = 1
          /\ prov = "G" /\ upd = [k \in {} |-> {}]
@@ -101,18 +107,14 @@ Final == ev.k = "final"
 Asked == {ev.asked[i] : i \in DOMAIN ev.asked}
 Stale(a) == a.cached # a.fresh
 \* the cache entries the final answer is read from, and what happened since they were filled
-EdgeSince(a) == \E k \in Deps(St, memo, a.key) : "add_edge" \in upd[k]
-GenSince(a) == \E k \in Deps(St, memo, a.key) : k.q \in ProviderQueries /\ "add_gen" \in upd[k]
+EdgeSince(a) == \E k \in Deps(St, memo, a.key) : k.q \in ProviderQueries /\ "add_edge" \in upd[k]
 
 CachedEqualsRecomputed_KnownNoClearOnAddEdge ==
   (At("CachedEqualsRecomputed_KnownNoClearOnAddEdge") /\ Final) =>
     \A a \in Asked : Stale(a) => ~EdgeSince(a)
-CachedEqualsRecomputed_KnownNoClearOnAddGenerator ==
-  (At("CachedEqualsRecomputed_KnownNoClearOnAddGenerator") /\ Final) =>
-    \A a \in Asked : (Stale(a) /\ ~EdgeSince(a)) => ~GenSince(a)
 CachedEqualsRecomputed_Other ==
   (At("CachedEqualsRecomputed_Other") /\ Final) =>
-    \A a \in Asked : Stale(a) => (EdgeSince(a) \/ GenSince(a))
+    \A a \in Asked : Stale(a) => EdgeSince(a)
 
 (* the real trace is a behaviour of the cache machine with the known deviations *)
 Drift_Answer == (At("Drift_Answer") /\ ev.k = "query") => ObsAns(ev.ans) = memo[ev.key]
